@@ -513,8 +513,9 @@ fn drive_sound<T: Transport>(t: T, p: &CmdParams, rng: &mut SmallRng) -> String 
                     e.run(false);
                     e.complete_all();
                 });
-                if failed {
-                    // chains of the aborted transfer may still be in the queue: nothing meaningful follows
+                if failed && with_engine(|e| e.pers_mut::<CmdPers>().ooo) {
+                    // out-of-order device (known finding D11): chains of the aborted transfer may
+                    // still be in the queue, nothing meaningful follows
                     break;
                 }
             }
